@@ -66,6 +66,10 @@ struct vsock {
 	int closed_by_app;
 	int rep_in, rep_out;	/* the latest poll reported this (non-spuriously); self-check of truthfulness */
 	int sigpipe;		/* a send without MSG_NOSIGNAL hit a closed peer */
+	/* bulk transfer (not logged byte by byte): bytes are identified by their address in the caller's buffer */
+	const uint8_t * bulk_base;
+	size_t bulk_len, bulk_sent;
+	int bulk_misordered;
 };
 
 extern struct vsock vk_socks[VK_MAXSOCK];
